@@ -148,6 +148,10 @@ func (e *Enc) call(in *ssa.Call, st *State) {
 				e.assume(not(eq(res.c[0], "0")))
 			}
 			e.set(in, res)
+			{
+				site := "dyn:" + callbackNameOr(c.Value)
+				e.siteResults[fmt.Sprintf("%s#%d", site, e.lastOrd[site])] = res
+			}
 			return
 		}
 		if lf := localClosure(c.Value); lf != nil {
@@ -295,11 +299,12 @@ func (e *Enc) callSiteHooks(in *ssa.Call, site, short string, args []ssa.Value, 
 	if e.con == nil {
 		return false
 	}
-	for _, a := range e.con.Asserts {
+	for ai, a := range e.con.Asserts {
 		if a.Callee != site || !(a.Ordinal == ord || a.Ordinal < 0) {
 			continue
 		}
 		asserted = true
+		e.assertHit[ai] = true
 		if !e.active(a.C) {
 			continue
 		}
@@ -376,6 +381,9 @@ func (e *Enc) staticCallV(in *ssa.Call, callee *ssa.Function, args []ssa.Value, 
 	}
 	asserted := e.callSiteHooks(in, cn, shortName, args, argv, st)
 	if e.headerOp(in, callee, cn, argv, st) {
+		return
+	}
+	if e.mathOp(in, callee, argv) {
 		return
 	}
 	if e.db.pureFns[callee.String()] {
@@ -1140,6 +1148,29 @@ func (e *Enc) pureCallback(name string) bool {
 		if c := e.db.byFunc[fname(fn)]; c != nil && c.PureCallbacks[name] {
 			return true
 		}
+	}
+	return false
+}
+
+// mathOp: IEEE semantics for the handful of math functions the codecs use.
+func (e *Enc) mathOp(in *ssa.Call, callee *ssa.Function, argv []*Val) bool {
+	if pkgPathOf(callee) != "math" {
+		return false
+	}
+	r := func(t string) bool {
+		e.set(in, &Val{typ: in.Type(), c: []string{t}})
+		return true
+	}
+	switch callee.Name() {
+	case "IsNaN":
+		return r(app("fp.isNaN", argv[0].c[0]))
+	case "IsInf":
+		x, s := argv[0].c[0], argv[1].c[0]
+		return r(and(app("fp.isInfinite", x), or(eq(s, "0"), and(app(">", s, "0"), app("fp.isPositive", x)), and(app("<", s, "0"), app("fp.isNegative", x)))))
+	case "Inf":
+		return r(ite(app(">=", argv[0].c[0], "0"), "(_ +oo 11 53)", "(_ -oo 11 53)"))
+	case "NaN":
+		return r("(_ NaN 11 53)")
 	}
 	return false
 }
